@@ -1,9 +1,18 @@
 """constants of the SNAP tunnel gateway ingress path -> Gen/Ingress.v
-(src, need, emit, missing, re are injected by tools/gen.py)
+(src, need, expect, emit, missing, re are injected by tools/gen.py)
 
-  * PACKET_BUF_SIZE (gateway.rs), the SCMP parameter-problem codes the three policy errors map
-    to (create_inbound_scmp_error), their numbers (scmp/types.rs), IsdAsn::WILDCARD,
-    the path types accepted by inbound_datagram_check (packet_policy.rs)."""
+HARD (need): what the model IMPORTS -- PACKET_BUF_SIZE, the parameter-problem code of each policy
+error and its number, IsdAsn::WILDCARD, the numbers of the accepted path types, the switches
+CSUM_COVERS_MESSAGE and SCMP_ERROR_SUPPRESS_BELOW.
+SOFT (expect): statements the model MIRRORS; the harness observes the whole inbound arm (verdict
+class, error class, every dispatched / reply byte, also end to end), so a miss only raises the
+case count and the correspondence decides.  The regular expressions pin operators, callees and
+constants, not local names or statement shape."""
+
+def fn_body(text, name):
+    """text of `fn name(...) ... {` up to the closing brace at the indentation of the `fn`"""
+    m = re.search(rf"^([ \t]*)(?:pub(?:\([a-z]+\))? )?fn {name}\b.*?^\1\}}\n", text, re.S | re.M)
+    return m.group(0) if m else ""
 
 def generate():
     gw = "crates/snap/snap-dataplane/src/tunnel_gateway/gateway.rs"
@@ -12,43 +21,66 @@ def generate():
     ia = "crates/libs/sciparse/src/scion/identifier/isd_asn.rs"
     dp = "crates/libs/sciparse/src/proto/dataplane_path/types.rs"
     t = src(gw)
-    m = need(t, r"pub\(crate\) const PACKET_BUF_SIZE: usize = (\d+);", "PACKET_BUF_SIZE", gw)
-    buf = int(m.group(1)) if m else 0
-    need(t, r"PacketBufPool<PACKET_BUF_SIZE>", "PacketPool = PacketBufPool<PACKET_BUF_SIZE>", gw)
-    need(t, r"match inbound_datagram_check\(&packet\[\.\.\], from\.ip\(\)\)", "inbound_datagram_check(&packet[..], from.ip())", gw)
-    need(t, r"ScionAddr::new\(IsdAsn::WILDCARD, from\.ip\(\)\.into\(\)\)", "reply destination = (WILDCARD, from.ip())", gw)
-    need(t, r"ScionAddr::new\(dst_addr\.isd_asn\(\), local_addr\),\s*dst_addr,\s*DpPath::Empty,", "reply source/path", gw)
-    # error -> (code, pointer kind)
+    m = need(t, r"const PACKET_BUF_SIZE: usize = ([\d_]+);", "PACKET_BUF_SIZE", gw)
+    buf = int(m.group(1).replace("_", "")) if m else 0
+    need(t, r"PacketBufPool<\s*PACKET_BUF_SIZE\s*>", "the packet pool's buffer size is PACKET_BUF_SIZE", gw)
+    # mirrored statements of the Forwarded arm / create_scmp_error (observed: soft)
+    expect(t, r"inbound_datagram_check\(\s*&packet\[\.\.\],\s*from\.ip\(\)\s*\)", "inbound_datagram_check(&packet[..], from.ip())", gw)
+    expect(t, r"IsdAsn::WILDCARD,\s*from\.ip\(\)", "reply destination = (WILDCARD, from.ip())", gw)
+    expect(t, r"DpPath::Empty", "reply over the empty path", gw)
+    expect(t, r"local_addr", "reply source = local address", gw)
+    # error -> parameter-problem code (imported: hard); pointer expressions (observed: soft)
+    body = fn_body(t, "create_inbound_scmp_error")
+    if not body:
+        need(t, r"fn create_inbound_scmp_error\b", "create_inbound_scmp_error", gw)
     codes = {}
-    body = need(t, r"fn create_inbound_scmp_error\(err: PacketPolicyError\).*?\n}\n", "create_inbound_scmp_error", gw, re.S)
-    body = body.group(0) if body else ""
-    for err, ptr in (("MalformedPacket", r"\s*0,"), ("InvalidSourceAddress", r"[^;]*?src_host_addr_range\(\)\s*\.containing_byte_range\(\)\s*\.start as u16,"),
-                     ("InvalidPathType", r"[^;]*?path_type_range\(\)\s*\.containing_byte_range\(\)\s*\.start as u16,")):
-        m = need(body, rf"PacketPolicyError::{err}\([^)]*\) => \{{\s*scmp::model::ScmpParameterProblem::new\(\s*ScmpParameterProblemCode::(\w+),{ptr}",
-                 f"create_inbound_scmp_error arm {err}", gw, re.S)
+    for err in ("MalformedPacket", "InvalidSourceAddress", "InvalidPathType"):
+        # the first code named after the error's pattern and before the next error's pattern
+        m = need(body, rf"PacketPolicyError::{err}\b(?:(?!PacketPolicyError::).)*?ScmpParameterProblemCode::(\w+)",
+                 f"parameter-problem code for {err}", gw, re.S)
         codes[err] = m.group(1) if m else None
+    expect(body, r"src_host_addr_range\(\)(?:(?!PacketPolicyError::).)*?\.start\b", "pointer = start of the source host field", gw, re.S)
+    expect(body, r"path_type_range\(\)(?:(?!PacketPolicyError::).)*?\.start\b", "pointer = start of the path type field", gw, re.S)
     tt = src(ty)
     nums = {}
     for err, name in codes.items():
         if not name:
             nums[err] = 0
             continue
-        m = need(tt, rf"\b{name} = (\d+),", f"ScmpParameterProblemCode::{name}", ty)
+        m = need(tt, rf"\b{name}\s*=\s*(\d+)\s*,", f"ScmpParameterProblemCode::{name}", ty)
         nums[err] = int(m.group(1)) if m else 0
     m = need(src(ia), r"pub const WILDCARD: Self = Self\((\d+)\);", "IsdAsn::WILDCARD", ia)
     wc = int(m.group(1)) if m else 0
-    # accepted path types
+    # inbound_datagram_check: mirrored statements (observed: soft)
     p = src(pp)
-    m = need(p, r"match view\.header\(\)\.path_type\(\) \{\s*((?:PathType::\w+\s*\|?\s*)+)=> \{\}\s*pt => return Err\(PacketPolicyError::InvalidPathType\(view, pt\)\),",
-             "accepted path types", pp, re.S)
-    acc = re.findall(r"PathType::(\w+)", m.group(1)) if m else []
-    need(p, r"if src_ip != expected_ip \{\s*return Err\(PacketPolicyError::InvalidSourceAddress\(view\)\);", "src_ip != expected_ip", pp, re.S)
-    need(p, r"\.src_host_addr\(\)\s*\.ok\(\)\s*\.and_then\(\|w\| w\.ip\(\)\)\s*\.ok_or\(PacketPolicyError::InvalidSourceAddress\(view\)\)\?;", "src ip extraction", pp, re.S)
-    need(p, r"ScionPacketView::try_from_slice\(datagram\)\s*\.map_err\(\|e\| PacketPolicyError::MalformedPacket\(datagram, e\)\)\?;", "raw view construction", pp, re.S)
+    chk = fn_body(p, "inbound_datagram_check")
+    if not chk:
+        expect(p, r"fn inbound_datagram_check\b", "inbound_datagram_check", pp)
+        chk = p
+    expect(chk, r"ScionPacketView::try_from_slice\(\s*datagram\s*\)", "raw view construction from the datagram", pp)
+    expect(chk, r"MalformedPacket\(\s*datagram\b", "MalformedPacket carries the datagram", pp)
+    expect(chk, r"\.src_host_addr\(\)", "source host address read", pp)
+    expect(chk, r"\.ip\(\)", "source address as IP", pp)
+    expect(chk, r"(?:!=|==)\s*(?:Some\(\s*)?expected_ip\b|expected_ip\s*\)?\s*(?:!=|==)", "source IP compared with expected_ip by (in)equality", pp)
+    expect(chk, r"InvalidSourceAddress\(\s*view\s*\)", "InvalidSourceAddress carries the view", pp)
+    expect(chk, r"\.path_type\(\)", "path type read", pp)
+    # accepted path types (imported as DATA): the PathType variants in an accepting position --
+    # an arm leading to `{}` / `()` / `Ok(..)` / `true`, or a `matches!` -- of the check function;
+    # when the function is written some other way fall back to the property's set (soft) and
+    # let the correspondence decide
+    acc = []
+    for m in re.finditer(r"((?:\|?\s*PathType::\w+\s*)+)(?:if\b[^=]*?)?=>\s*(?:\{\s*\}|\(\)|Ok\(|\{\s*Ok\(|true\b)", chk):
+        acc += re.findall(r"PathType::(\w+)", m.group(1))
+    for m in re.finditer(r"matches!\(\s*[^,]+,\s*((?:\|?\s*PathType::\w+\s*)+)\)", chk):
+        acc += re.findall(r"PathType::(\w+)", m.group(1))
+    acc = list(dict.fromkeys(acc))
+    if not acc:
+        expect(chk, r"(?!)", "accepted path types not recognisable: assuming Scion, Empty", pp)
+        acc = ["Scion", "Empty"]
     d = src(dp)
     accn = []
     for a in acc:
-        m = need(d, rf"(\d+) => (?:PathType|Self)::{a}\b", f"PathType::{a} number", dp)
+        m = need(d, rf"(\d+)\s*=>\s*(?:PathType|Self)::{a}\b", f"PathType::{a} number", dp)
         accn.append(int(m.group(1)) if m else 0)
     # does the encoded SCMP checksum cover the message bytes?  (with_pseudoheader itself adds only
     # pseudo-header, length and protocol; either it or the caller has to add the message)
@@ -58,23 +90,22 @@ def generate():
     m = need(c, r"pub fn with_pseudoheader\((.*?)\n    }\n", "ChecksumDigest::with_pseudoheader", ck, re.S)
     inside = bool(m and re.search(r"add_slice\(\s*buf\s*\)", m.group(1)))
     s_ = src(sm)
-    m = need(s_, r"impl PayloadEncode for ScmpParameterProblem \{.*?let checksum = ChecksumDigest::with_pseudoheader\((.*?)\.checksum\(\);",
+    m = need(s_, r"impl PayloadEncode for ScmpParameterProblem \{.*?ChecksumDigest::with_pseudoheader\((.*?)\.checksum\(\)",
              "ScmpParameterProblem checksum computation", sm, re.S)
     atcall = bool(m and re.search(r"\.add_slice\(", m.group(1)))
     covers = inside or atcall
-    # SCMP error messages are not answered (guard arm in the gateway + predicate in packet_policy.rs);
+    # SCMP error messages are not answered (guard in the gateway + predicate in packet_policy.rs);
     # absent construct = the tree before that repair: limit 0 = nothing is suppressed
-    g = re.search(r"Err\(e\) if e\.offending_is_scmp_error\(\) => \{", t)
     limit = 0
-    if g:
-        m = need(p, r"fn offending_is_scmp_error\(&self\) -> bool \{\s*match self \{\s*PacketPolicyError::MalformedPacket\(\.\.\) => false,\s*"
-                    r"PacketPolicyError::InvalidPathType\(view, _\)\s*\| PacketPolicyError::InvalidSourceAddress\(view\) => \{\s*"
-                    r"view\.header\(\)\.next_header\(\) == ProtocolNumber::Scmp\s*&& view\.payload\(\)\.first\(\)\.is_some_and\(\|scmp_type\| \*scmp_type < (\d+)\)",
-                 "offending_is_scmp_error", pp, re.S)
+    if re.search(r"\.offending_is_scmp_error\(\)", t):
+        ob = fn_body(p, "offending_is_scmp_error")
+        m = need(ob, r"<\s*(\d+)", "offending_is_scmp_error: SCMP type limit", pp)
         limit = int(m.group(1)) if m else 0
-        # the guard arm must come before the replying arm
-        need(t, r"Err\(e\) if e\.offending_is_scmp_error\(\) => \{.*?\}\s*Err\(e\) => \{\s*tracing::debug!\(err=%e, \"Inbound datagram check failed\"\);",
-             "suppression arm before the reply arm", gw, re.S)
+        expect(ob, r"MalformedPacket\([^)]*\)\s*=>\s*false", "malformed datagrams are never suppressed", pp)
+        expect(ob, r"next_header\(\)\s*==\s*ProtocolNumber::Scmp", "next header compared with SCMP", pp)
+        expect(ob, r"\.payload\(\)\s*\.first\(\)", "first payload byte = SCMP type", pp)
+        # the suppression test precedes the reply construction
+        expect(t, r"offending_is_scmp_error\(\).*?create_scmp_error\(", "suppression test before the reply is built", gw, re.S)
     body = f"""From Coq Require Import NArith List.
 Import ListNotations.
 Local Open Scope N_scope.
